@@ -219,7 +219,11 @@ class Interp:
                 adt = self.F.adts[d]
                 if not adt["is_enum"]:
                     v = adt["variants"][0]
-                    return StructV(d, v["name"], {f["name"]: self.symbolic(f["t"], name + (f["name"],), elem) for f in v["fields"]})
+                    sv = StructV(d, v["name"], {f["name"]: self.symbolic(f["t"], name + (f["name"],), elem) for f in v["fields"]})
+                    if d.endswith("Builder"):
+                        from . import roles
+                        roles.alias(self.F, sv)
+                    return sv
                 return EnumV(d, (tuple(name), elem))
             return Opaque("adt " + t["s"])
         return Opaque("type " + t["s"])
